@@ -124,8 +124,8 @@ def reader_wrap_sites(ctx, chk, R4):
     chk.require(nsites >= 4, f'expected 4 PackedObjectReader construction sites in container.py, found {nsites}')
 
 
-def run(ctx):
-    chk = Check('C01', ctx)
+def run(ctx, host=None):
+    chk = host.sub('C01') if host is not None else Check('C01', ctx)
     prog, K, E = ctx.prog, ctx.kinds, ctx.effects
     R1 = chk.rule('C01.R1', 'copy (tee) loops: end only on the empty chunk; each chunk reaches the sink and the hasher exactly once; compressor flushed after the loop', 8)
     R2 = chk.rule('C01.R2', 'returned key = hexdigest of the hasher that saw the written bytes; returned size = accumulated chunk lengths; one key per stream', 5)
@@ -609,6 +609,11 @@ def run(ctx):
     rewind_reset(ctx, chk, R5)
     from .c07 import decompresser_buffer_discipline
     decompresser_buffer_discipline(ctx, chk, R5)
+
+    # rules of other properties that are necessary conditions of this one too: the round trip needs a consistent index (C03), correct stream classes (C07) and flag/encoding agreement (C10)
+    if host is None:
+        from ..report import host_modules
+        host_modules(chk, ctx, ['C03', 'C07', 'C10'])
 
     return chk.finish(
         explanation=('Static structural rules on every write and read path: tee loops (exit only on the empty chunk; each chunk to the sink and the hasher exactly once on every '
